@@ -1,7 +1,7 @@
 EXPLANATION = ('C01 (lexical layer): Parser.cpp str::strip_comments / find_terminator / trim / fast_clean / del_after_first_slash and RawRecord.cpp splitSingleRecordString are executed on symbolic ASCII text; '
-  'layout rewrites (padding, trailing comments, separator kind and run length, text after the slash) are shown to leave the cleaned text / token sequence unchanged, strip_comments is compared with a quote-aware reference.')
-BOUNDS = 'every 7-bit text of up to 4 bytes (thorough: 6) per line plus the inserted layout bytes (symbolic); two tokens of 2+1 bytes for the tokeniser'
-OUTSIDE = 'keyword recognition and size-class dispatch, INCLUDE/PATHS handling, keyword lookup after case folding, double/UDA token conversion, whole decks; bytes >= 0x80 (the 7-bit classification tables are documented behaviour)'
+  'layout rewrites (padding, trailing comments, separator kind and run length, text after the slash) are shown to leave the cleaned text / token sequence unchanged, strip_comments is compared with a quote-aware reference; Parser::parseString as a whole is run on two layouts of the same keyword (real generated EQLDIMS / GRIDUNIT) and the two decks are compared item by item.')
+BOUNDS = 'every 7-bit text of up to 4 bytes (thorough: 6) per line plus the inserted layout bytes (symbolic); two tokens of 2+1 bytes for the tokeniser; whole parser: record body of up to 2 (thorough: 3) 7-bit bytes for two keywords and four re-layouts'
+OUTSIDE = 'size classes other than fixed one-record keywords, INCLUDE splitting, double/UDA token conversion, decks of several keywords; bytes >= 0x80 (the 7-bit classification tables are documented behaviour)'
 ASSUMPTIONS = ['std::string/std::deque executed from libstdc++ headers']
 def jobs(tier):
     n = 4 if tier == 'quick' else 6
@@ -21,4 +21,16 @@ def jobs(tier):
         for wd in ((1,) if tier == 'quick' and stri else (1, 0)):
             out.append(dict(name='scan_%s_%s' % ('str' if stri else 'int', 'dflt' if wd else 'nodflt'), src='h_scan.cpp', defs={'STRITEMS': stri, 'WITHDEF': wd}, entry='h_repeat_value,h_repeat_default', tus=STUS, fp='real',
                             loopmax=4000, maxsteps=60000000, bounds='4 %s items %s defaults; repeat counts 1..3; values: two symbolic %s' % ('string' if stri else 'int', 'with' if wd else 'without', 'letters' if stri else 'digits')))
+    # whole parser: Parser::parseString on two layouts of the same keyword (TU list shared with the C20 whole-parser jobs)
+    PT = ['opm/input/eclipse/Parser/%s.cpp' % n for n in ('raw/RawKeyword', 'raw/RawRecord', 'raw/StarToken', 'ParseContext', 'ErrorGuard', 'InputErrorAction', 'ParserKeyword', 'ParserRecord', 'ParserItem', 'ParserEnums')] + [
+          'opm/input/eclipse/Deck/%s.cpp' % n for n in ('Deck', 'DeckKeyword', 'DeckRecord', 'DeckItem', 'DeckView', 'DeckTree', 'DeckValue', 'DeckOutput', 'DeckSection', 'UDAValue', 'FileDeck', 'ImportContainer')] + [
+          'opm/input/eclipse/Units/%s.cpp' % n for n in ('UnitSystem', 'Dimension')] + [
+          'opm/common/%s.cpp' % n for n in ('OpmLog/OpmLog', 'OpmLog/Logger', 'OpmLog/LogUtil', 'OpmLog/KeywordLocation', 'utility/OpmInputError', 'utility/String', 'utility/shmatch')] + [
+          'opm/input/eclipse/Python/Python.cpp', 'opm/input/eclipse/Python/PythonInterp.cpp', '_build/ParserKeywords/E.cpp', '_build/ParserKeywords/G.cpp']
+    for kw, kn in ((0, 'eqldims'), (1, 'gridunit')):
+        for var in (1, 2, 3, 4):
+            if tier == 'quick' and kw == 1 and var in (1, 4): continue
+            out.append(dict(name='whole_%s_v%d' % (kn, var), src='h_whole.cpp', defs={'HN': 2 if tier == 'quick' else 3, 'KWSEL': kw, 'VAR': var}, entry='h_whole_layout', tus=PT, fp='real', loopmax=2000, maxsteps=80000000,
+                            timeout=900 if tier == 'quick' else 7200, opts=['--ctors'],
+                            bounds='Parser::parseString of %s with a body of <= %d arbitrary 7-bit bytes (no quote, slash, dash), layout variant %d' % (kn.upper(), 2 if tier == 'quick' else 3, var)))
     return out
